@@ -46,6 +46,15 @@ CHECKS = {
         technique='Coq proof: faithful model of XsdAttributeGroup/XsdAnyAttribute decoding = declarative spec; '
                   'differential error kinds, verdicts and filled names',
         design='5/C03'),
+    'C07': dict(
+        text='Proof, over arbitrary acyclic type environments, that the modelled is_derived / is_blocked / xsi:type / '
+             'substitution decisions hold exactly when a derivation chain exists whose methods avoid the element and '
+             'declared-type block sets and the type is not abstract; the xsi:nil table and first-alternative selection '
+             'are characterised. Tied to the code by seeded hierarchies x every type name as xsi:type, every member in '
+             'place of its head, nil/fixed/alternative instance variants (emptiable content, so only C07 rules decide).',
+        technique='Coq proof: faithful model of is_derived/is_blocked = chain reachability avoiding blocked methods; '
+                  'differential verdicts on generated hierarchies',
+        design='5/C07'),
     'C08': dict(
         text='Proof that the modelled identity tables report no unique/key/keyref/ID error exactly under the declarative '
              'conditions (NoDup of qualified tuples, completeness for keys, membership for complete keyref tuples, '
